@@ -155,6 +155,9 @@ std::unique_ptr<NodeResult> AccessNode::evaluate(PSC::Context &ctx) {
     try {
         holder = &resolver->resolve(ctx);
     } catch (PSC::NotDefinedError &e) {
+        // only an undefined name met while resolving in this context can mean an enumerated value; an error raised
+        // inside a function called from an index expression is not ours to replace
+        if (&e.context != &ctx) throw e;
         auto def = ctx.getEnumElement(token.value);
         if (def != nullptr)
             return std::make_unique<NodeResult>(def, PSC::DataType(PSC::DataType::ENUM, &def->definitionName));
